@@ -289,6 +289,10 @@ func cmdCheck(args []string) int {
 			}
 		}
 		incomplete := outcomes["unsupported"]+outcomes["engine-error"]+outcomes["budget"]+outcomes["cut"] > 0
+		if res.Truncated {
+			incomplete = true
+			rep.Lines = append(rep.Lines, fmt.Sprintf("INCONCLUSIVE: property=%s %s: exploration stopped at the path budget (%d paths); the stated bound was not exhausted", id, h.Name, len(res.Paths)))
+		}
 		// vacuity per alternative: every value of every vLen choice must lie on some path that
 		// runs to the end of the harness (an assumption that silently removes one alternative
 		// would otherwise pass everything about it)
